@@ -56,7 +56,7 @@ func writeReplay(u *Universe, st *SpecTables, d *Discharger, id string, o *Oblig
 		rep, ok := templateProbe(repo)
 		sb.WriteString("---- replay on the real code ----\n" + rep + "\n")
 		confirmed = ok
-	} else if rep, ok := replayInstance(u, st, d, o, repo); rep != "" {
+	} else if rep, ok := replayInstance(u, st, d, o, repo, id); rep != "" {
 		sb.WriteString("---- replay on the real code ----\n")
 		sb.WriteString(rep)
 		sb.WriteString("\n")
@@ -66,11 +66,11 @@ func writeReplay(u *Universe, st *SpecTables, d *Discharger, id string, o *Oblig
 		// no failing input from the obligation's own replay: look for one with the probes of its package
 		switch pkgDirOf(o.Decls.Fn) {
 		case "v3/metric":
-			rep, ok := scoreProbe(u, st, repo)
+			rep, ok := scoreProbe(u, st, repo, scoreAspect(id))
 			sb.WriteString("---- probe ----\n" + rep + "\n")
 			confirmed = ok
 		case "v2/metric":
-			rep, ok := v2ScoreProbe(u, st, repo)
+			rep, ok := v2ScoreProbe(u, st, repo, scoreAspect(id))
 			sb.WriteString("---- probe ----\n" + rep + "\n")
 			confirmed = ok
 		}
@@ -142,7 +142,7 @@ func probeProblem(u *Universe, st *SpecTables, repo, problem string, id string) 
 			continue
 		}
 		if dir != "v3/report" {
-			r, ok := decodeWitnessSearch(st, repo, dir)
+			r, ok := decodeWitnessFor(st, repo, dir, id)
 			sb.WriteString(r)
 			hit = hit || ok
 		}
@@ -155,12 +155,12 @@ func probeProblem(u *Universe, st *SpecTables, repo, problem string, id string) 
 			hit = hit || ok
 		}
 		if dir == "v3/metric" && !hit && scoreProperty[id] {
-			r, ok := scoreProbe(u, st, repo)
+			r, ok := scoreProbe(u, st, repo, scoreAspect(id))
 			sb.WriteString(r)
 			hit = hit || ok
 		}
 		if dir == "v2/metric" && !hit && scoreProperty[id] {
-			r, ok := v2ScoreProbe(u, st, repo)
+			r, ok := v2ScoreProbe(u, st, repo, scoreAspect(id))
 			sb.WriteString(r)
 			hit = hit || ok
 		}
